@@ -103,6 +103,12 @@ fn reference<T: Copy + Lerp + Default>(kfs: &[Kf], prop: usize, conv: impl Fn(i6
     }
     let last = *frames.last().unwrap();
     frames.push((1.0, last.1, cur));
+    if !strict && q >= 1.0 {
+        // at 100%: the last defined value (a keyframe at 100% or the held value)
+        let n = frames.len();
+        let only_zero = n == 3 && frames[1].0 == 0.0; // single defining keyframe at 0%: its (possibly substituted) value is held
+        return Some(Some(match ov { Some(o) if only_zero => o, _ => frames[n - 1].1 }));
+    }
     for j in 0..frames.len() - 1 {
         let (a, b) = (frames[j], frames[j + 1]);
         let inside = if strict { a.0 < q && q < b.0 } else { a.0 <= q && q < b.0 && a.0 < b.0 };
@@ -144,10 +150,10 @@ fn run(v: &lite::Value) -> String {
     let tm = timing(v);
     let time = if !v.get("time").is_empty() { fb(v.get("time")) } else { tm.1 + fb(v.get("npos")) * tm.0 };
     let ts = TimeScale::new(tm.0, tm.1, tm.2, tm.3);
-    let (q, ov_on) = match ts.get_position(time) {
-        TimeScalePosition::NotStarted => (0.0, true),
-        TimeScalePosition::Active(p, ls) => (p, !ls.is_repeating && !ls.is_reversing),
-        TimeScalePosition::Ended(p) => (p, false),
+    let (q, ov_on, tagn) = match ts.get_position(time) {
+        TimeScalePosition::NotStarted => (0.0, true, 0),
+        TimeScalePosition::Active(p, ls) => (p, !ls.is_repeating && !ls.is_reversing, 1),
+        TimeScalePosition::Ended(p) => (p, false, 2),
     };
     let use_ov = v.get("ov") == "true";
     let ovv: Vec<i64> = v.list("ovv").iter().map(|x| ib(x)).collect();
@@ -183,6 +189,75 @@ fn run(v: &lite::Value) -> String {
             "S1" => both!(S1, [(0, v, f32)], S1 { v: 777.0 }),
             "S2" => both!(S2, [(0, x, f32), (1, y, u8)], S2 { x: 777.0, y: 77 }),
             _ => both!(S3, [(0, a, f32), (1, b, i16)], S3 { a: 777.0, untouched: 555.0, b: 77 }),
+        }
+    }
+    if kind == "merged" {
+        // C12: components "cycle;delay;repeat;reverse;mask" (mask: which of S2.x / S2.y the component animates)
+        let specs = v.list("comps");
+        let mut comps: Vec<S2Timeline> = vec![]; let mut parms = vec![];
+        for (k, sp) in specs.iter().enumerate() {
+            let p: Vec<&str> = sp.split(';').collect();
+            let (d, dl) = (fb(p[0]), fb(p[1]));
+            let rep = match p[2] { "none" => Repeat::None, "inf" => Repeat::Infinite, n => Repeat::Times(n.parse().unwrap()) };
+            let mut b = S2::timeline().duration_seconds(d).delay_seconds(dl).repeat(rep).reverse(p[3] == "true");
+            let mut k0 = S2::keyframe(0.0); let mut k1 = S2::keyframe(1.0);
+            if p[4].as_bytes()[0] == b'1' { k0 = k0.x(10.0 * (k as f32 + 1.0)); k1 = k1.x(100.0 * (k as f32 + 1.0)); }
+            if p[4].as_bytes()[1] == b'1' { k0 = k0.y(10 * (k as u8 + 1)); k1 = k1.y(50 * (k as u8 + 1)); }
+            b = b.keyframe(k0).keyframe(k1);
+            comps.push(b.build()); parms.push((d, dl, rep));
+        }
+        let time = fb(v.get("time"));
+        let merged = MergedTimeline::of(comps.clone());
+        let mut mism = vec![];
+        let (mut a, mut b) = (S2 { x: 777.0, y: 77 }, S2 { x: 777.0, y: 77 });
+        merged.update(&mut a, time);
+        for c in comps.iter() { c.update(&mut b, time); }
+        if a != b { mism.push(format!("update: merged {:?} vs components in order {:?}", a, b)); }
+        let src = S2 { x: 5.0, y: 5 };
+        let mut m2 = merged.clone(); m2.start_with(&src);
+        let (mut a2, mut b2) = (S2 { x: 777.0, y: 77 }, S2 { x: 777.0, y: 77 });
+        m2.update(&mut a2, time);
+        for c in comps.iter() { let mut c2 = c.clone(); c2.start_with(&src); c2.update(&mut b2, time); }
+        if a2 != b2 { mism.push(format!("start_with: merged {:?} vs each component started {:?}", a2, b2)); }
+        let ord = |r: &Repeat| match r { Repeat::None => 0u64, Repeat::Times(n) => *n as u64, Repeat::Infinite => u32::MAX as u64 };
+        if parms.is_empty() {
+            if merged.delay() != 0.0 || merged.duration() != 0.0 || merged.repeat() != Repeat::None || merged.cycle_duration().is_some() { mism.push("empty list aggregates".to_string()); }
+        } else {
+            let dmin = parms.iter().map(|p| p.1).fold(f32::INFINITY, f32::min);
+            let tot = |p: &(f32, f32, Repeat)| match p.2 { Repeat::Infinite => f32::INFINITY, Repeat::None => p.1 + p.0, Repeat::Times(n) => p.1 + p.0 * (n as u64 + 1) as f32 };
+            let dmax = parms.iter().map(|p| tot(p)).fold(0.0f32, f32::max);
+            let rmax = parms.iter().map(|p| ord(&p.2)).max().unwrap();
+            let all_eq = parms.iter().all(|p| p.0 == parms[0].0);
+            if merged.delay() != dmin { mism.push(format!("delay {:?} != min {:?}", merged.delay(), dmin)); }
+            if merged.duration() != dmax { mism.push(format!("duration {:?} != max {:?}", merged.duration(), dmax)); }
+            if ord(&merged.repeat()) != rmax { mism.push(format!("repeat {:?} is not the largest", merged.repeat())); }
+            if merged.cycle_duration().is_some() != all_eq || (all_eq && merged.cycle_duration() != Some(parms[0].0)) { mism.push(format!("cycle_duration {:?} with component cycles {:?}", merged.cycle_duration(), parms.iter().map(|p| p.0).collect::<Vec<_>>())); }
+        }
+        return format!("{{\"mismatch\":{},\"detail\":\"{}\"}}", !mism.is_empty(), mism.join("; ").replace('"', "'"));
+    }
+    if kind == "twin_eval" || kind == "purity" {
+        macro_rules! twin {
+            ($S:ident, $fields:tt, $mk:expr, $prior:expr, $prior2:expr) => {{
+                let plain = build_tl!($S, kfs, tm, $fields);
+                let mut sub = plain.clone();
+                let src = $mk;
+                sub.start_with(&src);
+                let (mut a, mut b) = ($prior.clone(), $prior.clone());
+                plain.update(&mut a, time); sub.update(&mut b, time);
+                // purity probes: second evaluation, other prior contents, clone, repeated start_with
+                let mut b2 = $prior2.clone(); sub.update(&mut b2, time);
+                let mut b3 = b.clone(); sub.update(&mut b3, time);
+                let mut cl = sub.clone(); let mut b4 = $prior.clone(); cl.update(&mut b4, time);
+                cl.start_with(&$prior2); cl.start_with(&src); let mut b5 = $prior.clone(); cl.update(&mut b5, time);
+                let meta = plain.delay() == sub.delay() && plain.duration() == sub.duration() && plain.repeat() == sub.repeat() && plain.cycle_duration() == sub.cycle_duration();
+                return format!("{{\"q\":{},\"ov_on\":{},\"tag\":{},\"plain\":\"{}\",\"sub\":\"{}\",\"src\":\"{}\",\"same\":{},\"idempotent\":{},\"clone_same\":{},\"restart_same\":{},\"other_prior\":\"{}\",\"meta_same\":{}}}",
+                    q.to_bits(), ov_on, tagn, show(&a), show(&b), show(&src), a == b, b == b3, b == b4, b == b5, show(&b2), meta);
+            }};
+        }
+        match v.get("subject") {
+            "S1" => twin!(S1, [(0, v, f32)], S1 { v: conv(ovv[0]) }, S1 { v: 777.0 }, S1 { v: -5.0 }),
+            "S2" => twin!(S2, [(0, x, f32), (1, y, u8)], S2 { x: conv(ovv[0]), y: conv(ovv[1]) }, S2 { x: 777.0, y: 77 }, S2 { x: -5.0, y: 3 }),
+            _ => twin!(S3, [(0, a, f32), (1, b, i16)], S3 { a: conv(ovv[0]), untouched: conv(ovv[1]), b: conv(ovv[2]) }, S3 { a: 777.0, untouched: 555.0, b: 77 }, S3 { a: -5.0, untouched: 1.0, b: 3 }),
         }
     }
     match v.get("subject") {
